@@ -30,7 +30,16 @@ pub enum Op {
     /// a slow subscriber: a fresh channel that holds only `cap` events is subscribed, `n` local writes
     /// are issued by another task, and the channel is read only after a pause (the writer has to wait
     /// for room: nothing may be dropped or overtaken)
-    Burst { a: usize, n: usize, cap: usize, ts: u64 },
+    Burst {
+        a: usize,
+        n: usize,
+        cap: usize,
+        ts: u64,
+        /// the writer gives up (its task is aborted) while the actor waits for room in the channel:
+        /// the write it was waiting for is applied and announced all the same
+        #[serde(default)]
+        abandon: bool,
+    },
     /// (first op only) the document starts with the read capability
     StartReadOnly,
     /// `import_namespace` while the document is open and subscribed: `write` upgrades
@@ -100,8 +109,14 @@ impl Property for C12 {
             ]),
             ("slow-subscriber-misses-nothing".into(), vec![
                 Op::Subscribe { s: 0 },
-                Op::Burst { a: 0, n: 6, cap: 2, ts: 30 },
+                Op::Burst { a: 0, n: 6, cap: 2, ts: 30, abandon: false },
                 Op::Local { a: 1, key: b"after".to_vec(), c: 0, ts: 40 },
+            ]),
+            ("slow-subscriber-impatient-writer".into(), vec![
+                Op::Subscribe { s: 0 },
+                Op::Burst { a: 0, n: 6, cap: 1, ts: 30, abandon: true },
+                Op::Local { a: 1, key: b"after".to_vec(), c: 0, ts: 40 },
+                Op::Remote { a: 2, key: b"later".to_vec(), c: Some(1), ts: 9, peer: 0, status: 0, bad: false },
             ]),
             ("policy-decides-download-flag".into(), vec![
                 Op::Subscribe { s: 0 },
@@ -140,7 +155,7 @@ impl Property for C12 {
                     }
                 }
                 18 if read_only || rng.chance(1, 3) => Op::Import { write: rng.chance(2, 3) },
-                19 if rng.chance(1, 2) => Op::Burst { a, n: rng.range(2, 7), cap: rng.range(1, 3), ts: ts + 100 },
+                19 if rng.chance(1, 2) => Op::Burst { a, n: rng.range(2, 7), cap: rng.range(1, 3), ts: ts + 100, abandon: rng.chance(1, 2) },
                 _ => Op::Policy { pol: gen_pol(rng) },
             });
         }
@@ -315,7 +330,7 @@ impl Property for C12 {
                         );
                         lines.push(Line::model(format!("emsgres 1 {nshex} {NOW} {} {}", hex(&peer_bytes(*peer)), msg_tok(&m, &tok)), line));
                     }
-                    Op::Burst { a, n, cap, ts } => {
+                    Op::Burst { a, n, cap, ts, abandon } => {
                         let author = self.keys.authors[*a].clone();
                         let (tx, rx) = async_channel::bounded::<Event>(*cap);
                         burst_counter += 1;
@@ -341,12 +356,19 @@ impl Property for C12 {
                         };
                         // the slow reader
                         tokio::time::sleep(std::time::Duration::from_millis(40)).await;
+                        if *abandon {
+                            writer.abort();
+                        }
                         let mut got = vec![];
                         let deadline = std::time::Instant::now() + std::time::Duration::from_secs(30);
                         let mut writer = writer;
                         let results = loop {
                             tokio::select! {
-                                r = &mut writer => break r.map_err(|e| anyhow::anyhow!("writer: {e}"))?,
+                                r = &mut writer => break match r {
+                                    Ok(v) => Some(v),
+                                    Err(e) if e.is_cancelled() => None,
+                                    Err(e) => anyhow::bail!("writer: {e}"),
+                                },
                                 ev = rx.recv() => { if let Ok(ev) = ev { got.push(event_tok(&ev, &tok)); } }
                                 _ = tokio::time::sleep_until(deadline.into()) => anyhow::bail!("burst did not finish"),
                             }
@@ -354,6 +376,32 @@ impl Property for C12 {
                         while let Ok(ev) = rx.try_recv() {
                             got.push(event_tok(&ev, &tok));
                         }
+                        // an abandoned writer: what reached the actor is what the store holds afterwards
+                        let results: Vec<Result<(), String>> = match results {
+                            Some(v) => v,
+                            None => {
+                                // let the actor finish the write it was busy with: keep reading until nothing comes any more
+                                while let Ok(Ok(ev)) = tokio::time::timeout(std::time::Duration::from_millis(300), rx.recv()).await {
+                                    got.push(event_tok(&ev, &tok));
+                                }
+                                let mut v = vec![];
+                                for i in 0..*n {
+                                    let key = format!("burst{burst_counter}-{i}").into_bytes();
+                                    if handle.get_exact(nsid, author.id(), key.into(), true).await?.is_some() {
+                                        v.push(Ok(()));
+                                    }
+                                }
+                                // every applied write owes the subscriber an event: wait for the ones still under way
+                                while got.len() < v.len() {
+                                    match tokio::time::timeout(std::time::Duration::from_secs(10), rx.recv()).await {
+                                        Ok(Ok(ev)) => got.push(event_tok(&ev, &tok)),
+                                        _ => break,
+                                    }
+                                }
+                                v
+                            }
+                        };
+                        let abandoned = *abandon;
                         let mut expected = vec![];
                         for (i, r) in results.iter().enumerate() {
                             let key = format!("burst{burst_counter}-{i}").into_bytes();
@@ -364,7 +412,12 @@ impl Property for C12 {
                                 Err(s) if s.contains("newer entry") => "notinserted".to_string(),
                                 Err(s) => format!("err:{s}"),
                             };
-                            lines.push(Line::model(format!("elocalres 1 {}", tok(&e)), imp));
+                            if abandoned {
+                                // (the writer did not wait for the replies)
+                                lines.push(Line::model(format!("abandoned elocalres 1 {}", tok(&e)), "abandoned"));
+                            } else {
+                                lines.push(Line::model(format!("elocalres 1 {}", tok(&e)), imp));
+                            }
                         }
                         lines.push(Line::model(format!("einbox 1 {id}"), format!("events {} {}", got.len(), got.join(";"))));
                         // specification: the slow subscriber saw every acknowledged write, once, in order
